@@ -132,6 +132,10 @@ def step (s : St) (j : Json) : St × Json :=
   -- what a crash at the first COMPLETE would leave on disk: always a complete job
   -- (Props.C11.complete_seen_survives_restart); the jobs of this op are deleted again
   | some "crashcopy" => (s, Json.mkObj [("lost", (0 : Nat))])
+  -- n large rows stored and read back by a slow client: every one of them, as stored, once
+  -- (Props.C11.spool_roundtrip, stream_submitted: whatever the rows carry); the rows themselves stay
+  -- in the harness, which reports how many came back and how many differ from what it stored
+  | some "bigview" => (s, Json.mkObj [("n", (nat? j "n").getD 80), ("differ", (0 : Nat))])
   | _ => (s, Drv.bad "unknown op")
 
 def main : IO Unit := Drv.runLoop ({} : St) step
